@@ -7,6 +7,7 @@
 //	dbt oplog <dir> <seed>   multi-document writes with document-dependent change events, no-ops, drops (C08)
 //	dbt clean <dir> <seed>   the real Transaction.Clean on crafted change logs: every configuration of the retention grid (C08)
 //	dbt reload <dir> <seed> <histories> <calls>  histories on a FileStore with close/reopen points + typed-pool fidelity scenario (C06)
+//	dbt alias <dir> <seed>   every call kind with nested arguments; arguments and results are overwritten afterwards (C17)
 //	dbt ttl   <dir> <seed>   TTL expiry passes (Transaction.Expire and the background loop) over typed value pools (C19)
 //	dbt index <dir> <seed>   every write path next to partial / multikey / compound indexes (C15)
 package main
@@ -108,8 +109,18 @@ func main() {
 		hists++
 		flush(er)
 		er.Close()
+	case "alias":
+		e := mk()
+		dbt.AliasScenarios(e)
+		flush(e)
+		e.Close()
 	case "ttl":
-		dbt.TTLScenarios(mk, flush)
+		tmp, err := os.MkdirTemp("", "dbt-ttl-")
+		if err != nil {
+			util.Die("tmp: %v", err)
+		}
+		defer os.RemoveAll(tmp)
+		dbt.TTLScenarios(mk, flush, tmp)
 		e := mk()
 		dbt.BackgroundExpiry(e, nil)
 		flush(e)
